@@ -34,6 +34,11 @@ Definition check_ucase (c : ucase) : bool :=
   | Err _ => false
   end.
 
+(* the Auto rule of apply_unary: observed rule (the result equals that rule's on the same oracle data) *)
+Definition ualg_eqb (a b : ualg) : bool := match a, b with UEigh, UEigh | UEig, UEig | ULanczos, ULanczos | UArnoldi, UArnoldi => true | _, _ => false end.
+Record aucase := mkaucase { au_psd : bool; au_small : bool; au_tag : ualg }.
+Definition check_aucase (c : aucase) : bool := ualg_eqb (auto_unary (au_psd c) (au_small c)) (au_tag c).
+
 (* Krylov rule on one operand: oracle data Q (n x m), eigenvalues theta and eigenvectors Pm of the projected matrix,
    first column of Pm^-1 (= conj of the first row of Pm for eigh), norm of the operand *)
 Record kcase := mkkcase { kn : nat; km : nat; kQ : list (list qi); kPm : list (list qi); kth : list qi; kpi0 : list qi; knrm : qi;
